@@ -25,7 +25,7 @@ from splice import splice, TemplateError  # noqa: E402
 from extract import LostAnchor  # noqa: E402
 from lex import LexError  # noqa: E402
 
-DEFINITE = ("not satisfied", "assertion failed", "possible arithmetic", "possible division", "possible bit shift",
+DEFINITE = ("not satisfied", "assertion failed", "unable to prove", "possible arithmetic", "possible division", "possible bit shift",
             "could not prove termination", "might not be allowed", "unreachable", "assertion failure")
 UNDECIDED_MARKS = ("rlimit", "Resource limit", "timed out", "solver")
 
